@@ -60,6 +60,7 @@ def one_iteration(loop):
 # ------------------------------------------------------------------------------------------
 # C38: IOLoopSched
 
+OFFSETS = [0.0, 500.0, 1700000000.0, 86400.0]
 CB_FORMS = ["add", "spawn"]
 TO_FORMS = ["abs", "delta", "later", "at"]
 
@@ -74,7 +75,9 @@ class SchedReal:
         self.env = Env(start=T0)
         self.loop = self.env.loop
         self.io = self.env.io_loop
-        self.off = float(cfg.get("off", 0))
+        # the specification does not depend on the offset; where the behaviour does not fix one
+        # (off = 0) the replay variant picks it: none, small, epoch scale
+        self.off = float(cfg.get("off", 0)) or OFFSETS[variant % len(OFFSETS)]
         loop = self.loop
         off = self.off
         self.io.time = lambda: loop.time() + off
@@ -108,15 +111,16 @@ class SchedReal:
                 raise AssertionError("arguments not passed through: %r %r" % (item, tag))
             me._note(i)
 
-        if k == "failcoro":
-            async def f(item, tag=None):
-                pre(item, tag)
-                raise ItemError(i)
-            return f
-        if k == "okcoro":
-            async def f(item, tag=None):
-                pre(item, tag)
+        if k in ("failcoro", "okcoro"):
+            # the callback returns a coroutine object; the call itself is what the loop runs
+            async def body():
+                if k == "failcoro":
+                    raise ItemError(i)
                 return 5
+
+            def f(item, tag=None):
+                pre(item, tag)
+                return body()
             return f
 
         def f(item, tag=None):
@@ -251,4 +255,141 @@ class SchedReal:
 
     def close(self):
         self.tap.close()
+        self.env.close()
+
+
+# ------------------------------------------------------------------------------------------
+# C39: Periodic
+
+# (tick length in seconds, wall clock value at tick 0, how callback_time is given)
+# All values are dyadic so that the float arithmetic of _update_next is exact and comparable
+# with the integer specification; 2**-19 s is about 1.9 microseconds, at epoch scale.
+PERIODIC_SCALES = [
+    (1.0, 1700000000.0, "ms"),
+    (2.0 ** -19, 1700000000.0, "ms"),
+    (1.0, 50000.0, "timedelta"),
+    (0.25, 1234567.5, "ms"),
+    (2.0 ** -10, 0.0, "ms"),
+]
+
+
+class PeriodicReal:
+    """Real PeriodicCallback behind the Periodic.tla action interface, on a loop with separate
+    wall (IOLoop.time) and monotonic (asyncio loop) virtual clocks.  Deadlines are observed where
+    PeriodicCallback hands them to IOLoop.add_timeout."""
+
+    def __init__(self, cfg, variant=0):
+        from tornado.ioloop import PeriodicCallback
+        self.tick, self.w0, how = PERIODIC_SCALES[variant % len(PERIODIC_SCALES)]
+        self.env = Env(start=T0)
+        self.loop = self.env.loop
+        self.io = self.env.io_loop
+        self.cfg = cfg
+        self.wall = cfg["w0"]
+        self.mono = 0
+        self.io.time = lambda: self.w0 + self.wall * self.tick
+        self.sched = []
+        self.calls = 0
+        self.ends = 0
+        self.inflight = 0
+        self.max_inflight = 0
+        self.gates = []
+        self.tap = LogTap()
+        real_add = self.io.add_timeout
+        self.pending = []
+
+        def add_timeout(deadline, callback, *a, **kw):
+            self.sched.append(self._to_ticks(deadline))
+            h = real_add(deadline, callback, *a, **kw)
+            self.pending.append(h)
+            return h
+        self.io.add_timeout = add_timeout
+        kind = cfg["kind"]
+        me = self
+
+        def sync_cb():
+            me.calls += 1
+            if kind == "raise":
+                raise ItemError(0)
+
+        def coro_cb():
+            me.calls += 1
+            me.inflight += 1
+            me.max_inflight = max(me.max_inflight, me.inflight)
+            gate = asyncio.Future(loop=me.loop)
+            me.gates.append(gate)
+
+            async def body():
+                try:
+                    await gate
+                finally:
+                    me.inflight -= 1
+                    me.ends += 1
+                if kind == "cororaise":
+                    raise ItemError(0)
+            return body()
+        cb = coro_cb if kind in ("coro", "cororaise") else sync_cb
+        p_s = cfg["p"] * self.tick
+        if how == "timedelta":
+            self.pc = PeriodicCallback(cb, datetime.timedelta(seconds=p_s))
+        else:
+            self.pc = PeriodicCallback(cb, p_s * 1000.0)
+
+    def _to_ticks(self, t):
+        x = (t - self.w0) / self.tick
+        return int(x) if x == int(x) else x
+
+    def _armed(self):
+        # a timeout handed out by add_timeout that has neither fired nor been cancelled
+        n = 0
+        for h in self.pending:
+            if not h.cancelled() and h in self.loop._scheduled:
+                n += 1
+        return n
+
+    def proj(self):
+        errs = 0
+        extra = []
+        for r in self.tap.records:
+            e = r.exc_info[1] if r.exc_info else None
+            if isinstance(e, ItemError):
+                errs += 1
+            else:
+                extra.append(type(e).__name__ if e is not None else r.getMessage()[:60])
+        for c in self.loop.uncaught:
+            extra.append("asyncio:" + str(c.get("message"))[:60])
+        p = {"running": 1 if self.pc.is_running() else 0, "armed": self._armed(), "inflight": self.inflight,
+             "calls": self.calls, "sched": list(self.sched), "errs": errs}
+        if extra:
+            p["unexpected_log"] = extra
+        return p
+
+    def step(self, act, args):
+        try:
+            if act == "start":
+                self.pc.start()
+            elif act == "stop":
+                self.pc.stop()
+            elif act == "tick":
+                dw, dm = args
+                self.wall += dw
+                self.mono += dm
+                self.loop._vtime = T0 + self.mono * self.tick
+            elif act == "done":
+                g = self.gates.pop(0)
+                g.set_result(None)
+            else:
+                raise ValueError(act)
+            self.loop.settle()
+        except Exception as e:
+            p = self.proj()
+            p["raised"] = type(e).__name__
+            return p
+        return self.proj()
+
+    def close(self):
+        self.tap.close()
+        for g in self.gates:
+            if not g.done():
+                g.cancel()
         self.env.close()
